@@ -5,6 +5,7 @@ import json
 import vlib
 
 KEYS = ["a", "b", "c", "d"]
+TYPEY = ["5", "true", "null", "1.5", "~"]    # strings that look like another type: they must stay strings
 WILD = ["*", "?", "a*", "c*", "?og", "*a*", "c?t", "**", "*?"]
 STRS = ["", "a", "b", "cat", "dog", "a b", "xé", "zz", "c*", "*", "?og"]   # [1:5] are used as literals; pattern-like ones only occur in documents
 INTS = [0, 1, 2, 3, -1, -2, 5, 10, 7, 100, 9007199254740992]   # in documents: exactly representable in binary64 (JSON reader goes through float64: C06)
@@ -456,9 +457,9 @@ class Gen:
         rng = self.rng
         r = rng.random()
         if r < 0.5:
-            return lit(rng.choice(INTS + STRS[1:5] + [None, True, False]))
+            return lit(rng.choice(INTS + STRS[1:5] + TYPEY + [None, True, False]))
         if r < 0.65:
-            return ("collect", ("union", lit(rng.choice(INTS)), lit(rng.choice(STRS[1:4]))))
+            return ("collect", ("union", lit(rng.choice(INTS)), lit(rng.choice(STRS[1:4] + TYPEY))))
         if r < 0.72:
             return ("collect", None)
         if r < 0.85:
@@ -492,7 +493,10 @@ class Gen:
         if r < 0.35:
             return ("assign", self.lhs(), self.value_expr())
         if r < 0.6:
-            f = rng.choice([("add", ("self",), lit(1)), ("length",), ("collect", ("self",)), lit(0), ("mul", ("self",), lit(2)), ("getkey", rng.choice(KEYS)), ("reverse",), ("sub", ("self",), lit(1))])
+            f = rng.choice([("add", ("self",), lit(1)), ("length",), ("collect", ("self",)), lit(0), ("mul", ("self",), lit(2)), ("getkey", rng.choice(KEYS)), ("reverse",), ("sub", ("self",), lit(1)),
+                            # several results (the first one is written) and none (nothing is written)
+                            ("union", lit(rng.choice(INTS[:4])), lit(rng.choice(STRS[1:4]))), ("union", ("index", ("self",), lit(0)), ("index", ("self",), lit(-1))),
+                            ("union", ("length",), ("self",)), ("index", ("self",), None), ("select", ("gt", ("self",), lit(1))), ("pipe", ("index", ("self",), None), ("select", ("ne", ("self",), lit(1))))])
             return ("update", self.lhs(), f)
         if r < 0.75:
             return ("compound", rng.choice(["add", "add", "sub", "mul"]), self.lhs(), self.value_expr())
